@@ -88,3 +88,19 @@ _p("C17", "other",
    "loop fails), argument regexes cannot match the empty string, the XML parser never resolves entities. 'Time proportional to the expanded size' is not "
    "decided. Adversarial documents under a watchdog are the bounded part (labelled bounded).",
    [LXML, CPY, RE])
+
+_p("C14", "other",
+   "Static: the four strip steps precede every other step of topicosvg (partial order on the real AST), the parser drops comments / blank text, the strip "
+   "tag list is checked; proved: comments never count as children and an attribute-less wrapper group is always flattened pushing opacity 1 (C05 group "
+   "obligations). The metamorphic claim convert(N(D)) ~ convert(D) is the bounded part (labelled bounded).",
+   [LXML, CPY])
+
+_p("C07", "other",
+   "Proved: the per-shape rewrites are fixpoints on pico-form data (C09 rewrite obligations: absolute/expand/explicit-lines leave absolute, shorthand-free "
+   "commands unchanged; rounding is idempotent), normalize_opacity/_stroke bookkeeping; static: no shape-removing step after the last orphan-gradient sweep. "
+   "That _simplify is a fixpoint on a pico tree is NOT decided deductively; pass 1 vs pass 2 vs pass 3 byte comparison is the bounded part (labelled bounded).",
+   [LXML, PATHOPS, CPY])
+_p("C08", "other",
+   "Static: orphan sweep ordering; proved: ids cleared when a stroked shape is split (C04). Unique ids / no dangling url / no unused gradient on whole "
+   "documents is checked by a reference-graph oracle on sharing patterns (bounded, labelled).",
+   [LXML, CPY])
